@@ -117,9 +117,9 @@ def mk_alphabet():
     A = {}
 
     def add(key, name, fn, disp=None, resolve="wrapped", other=None, alias=False, addhint=None, join=False,
-            setop=False, retself=False, action=False, group="transformation"):
+            setop=False, retself=False, action=False, group="transformation", rebuilt=False):
         A[key] = dict(key=key, name=name, fn=fn, disp=disp, resolve=resolve, other=other, alias=alias, addhint=addhint,
-                      join=join, setop=setop, retself=retself, action=action, group=group)
+                      join=join, setop=setop, retself=retself, action=action, group=group, rebuilt=rebuilt)
 
     # ---- projections that write display names
     add("select_same", "select", lambda R, d, o: d.select(R.c0, R.c1), lambda R: _dargs(("CStr", R.c0), ("CStr", R.c1)))
@@ -164,7 +164,8 @@ def mk_alphabet():
     add("copy_copy", "__copy__", lambda R, d, o: __import__("copy").copy(d), resolve="never")
     add("cache", "cache", lambda R, d, o: d.cache(), resolve="never", retself=True)
     add("persist", "persist", lambda R, d, o: d.persist(), resolve="never", retself=True)
-    add("unpivot", "unpivot", lambda R, d, o: d.unpivot(R.c0, [R.c1], "var", "val"), resolve="always")
+    # unpivot: hints are resolved on a throw-away copy; the result is rebuilt from the receiver and wrapped without joins
+    add("unpivot", "unpivot", lambda R, d, o: d.unpivot(R.c0, [R.c1], "var", "val"), resolve="always", setop=True, rebuilt=True)
     add("groupBy_agg", "groupBy.agg", lambda R, d, o: d.groupBy(R.c0).agg(R.F.max(R.c1).alias("m")))
     add("groupBy_count", "groupBy.count", lambda R, d, o: d.groupBy(R.c0).count())
     add("groupby_sum", "groupBy.sum", lambda R, d, o: d.groupby(R.c0).sum(R.c1))
@@ -232,6 +233,7 @@ def mk_alphabet():
 
 
 ALPHABET = mk_alphabet()
+SHARES_HINTS = [False]   # generated fact (copy() keeps the very hint objects?), set by run() before the workers fork
 
 # states: how `d` is built (a list of alphabet keys applied in sequence to the base table `df`)
 STATES = {
@@ -260,7 +262,7 @@ HINT_STATES = {"HINT", "HINT_join", "HINT_where", "REPARTITION", "REPARTITION_wh
 def _more_builders():
     A = ALPHABET
     base = dict(disp=None, resolve="wrapped", other=None, alias=False, addhint=None, join=False, setop=False,
-                retself=False, action=False, group="builder")
+                retself=False, action=False, group="builder", rebuilt=False)
     A["select_same3"] = dict(base, key="select_same3", name="select", fn=lambda R, d, o: d.select("a", "b", "s"),
                              disp=lambda R: _dargs(("CStr", "a"), ("CStr", "b"), ("CStr", "s")))
     A["select_mixed3"] = dict(base, key="select_mixed3", name="select", fn=lambda R, d, o: d.select(R.F.col("A"), "b", "s"),
@@ -506,10 +508,14 @@ def step_coq(st):
         return f"(PObs {natlit(st['var'])}, {exp_})"
     a = ALPHABET[st["key"]]
     resolve = {"wrapped": "RIfWrapped", "always": "RAlways", "never": "RNever"}[a["resolve"]]
+    if a.get("rebuilt") and not SHARES_HINTS[0]:
+        # the hints are resolved on a throw-away copy; when copy() copies hint objects (generated fact) that has no
+        # effect on the objects the result is rebuilt from
+        resolve = "RNever"
     k = (f"(mkK {disp_coq(st['disp'])} {resolve} {boollit(a['other'] is not None and (a['join'] or a['setop']))} "
          f"{optlit(natlit(st['alias_seq']) if st['alias_seq'] is not None else None)} "
          f"{optlit(boollit(a['addhint']) if a['addhint'] is not None else None)} {boollit(a['join'])} {boollit(a['setop'])} "
-         f"{boollit(a['retself'])})")
+         f"{boollit(a['retself'])} {boollit(a.get('rebuilt', False))})")
     other = optlit(natlit(st["other"]) if st["other"] is not None else None)
     res = "None" if st["res"] is None else f"(Some {res_term(st['res'])})"
     return f"(PCall {strlit(st['name'])} {k} {natlit(st['recv'])} {other} {res}, {exp_})"
@@ -749,18 +755,39 @@ def _worker(args):
 # ------------------------------------------------------------------------------------------------------------
 QUICK_STATES = ["INIT", "WHERE", "SELECT", "SELECT_mixed", "ORDER_BY", "LIMIT", "FROM_join", "SELECT_groupagg", "NO_OP_alias",
                 "WHERE_after_select", "HINT", "HINT_join", "REPARTITION_where"]
-CORE_STATES = ["WHERE", "SELECT", "FROM_join", "HINT_join"]
+CORE_STATES = ["WHERE", "HINT_join"]
 
 
-REDUCED_KEYS = ["select_mixed", "select_alias", "select_star", "select_none", "agg_alias", "withColumn_case", "withColumns",
+REDUCED_KEYS = ["select_mixed", "select_alias", "select_none", "agg_alias", "withColumn_case", "withColumns",
                 "rename_clash", "where", "orderBy", "limit", "distinct", "drop", "dropna", "fillna", "toDF", "groupBy_agg",
-                "cube_count", "join_name", "union", "unionByName", "alias", "hint_broadcast", "repartition", "collect", "head",
-                "show", "count", "isEmpty", "corr", "schema", "sql", "columns", "getitem", "tempView", "cache"]
+                "cube_count", "join_name", "union", "unpivot", "alias", "hint_broadcast", "repartition", "collect", "head",
+                "count", "isEmpty", "schema", "sql", "getitem", "cache"]
 
 
 def reduced_alphabet(follow):
     """quick tier, non-core states: one representative per family of methods + every shape that writes display names"""
     return [k for k in follow if k in REDUCED_KEYS]
+
+
+def corpus():
+    """the scenarios of the staged / repaired findings (findings/C04-*.json) run first"""
+    out = []
+    try:
+        with open(os.path.join(core.VERIF, "findings", "C04.known.json")) as f:
+            listed = json.load(f).get("findings", [])
+    except OSError:
+        listed = []
+    for k in listed:
+        try:
+            with open(os.path.join(core.VERIF, k["replay"])) as f:
+                r = json.load(f)["replay"]
+            dname = "d" if STATES[r["state"]] else "df"
+            fk = [(x["key"], None if x["receiver"] == dname else x["receiver"]) for x in r["follow_up"]]
+            if all(key in ALPHABET for key, _ in fk):
+                out.append((r["state"], fk, r.get("protocol", "A")))
+        except (OSError, KeyError, ValueError):
+            continue
+    return out
 
 
 def plan(ctx):
@@ -769,19 +796,19 @@ def plan(ctx):
     thorough = ctx.tier == "thorough"
     states = list(STATES) if thorough else QUICK_STATES
     reduced = reduced_alphabet(follow)
-    scen = []
+    scen = corpus()
     for state in states:
         for k in (follow if thorough or state in CORE_STATES else reduced):
             scen.append((state, [(k, None)], "A"))
     # before/after on the same objects (observation first)
     writers = [k for k in follow if ALPHABET[k]["name"] in DISPLAY_METHODS or k in ("alias", "collect", "isEmpty", "corr", "where")]
     for state in states:
-        ks = list(writers) if thorough else rnd.sample(writers, 3)
+        ks = list(writers) if thorough else rnd.sample(writers, 2)
         for k in ks:
             scen.append((state, [(k, None)], "C"))
     # actions / wraps on a RELATIVE that shares hint objects with d (the control run looks at d, c1, c2, c3 in this order)
     for state in (s_ for s_ in states if s_ in HINT_STATES):
-        for k in ("collect", "sql", "count", "select_same", "orderBy", "alias"):
+        for k in (("collect", "sql", "count", "select_same", "orderBy", "alias") if thorough else ("collect", "select_same", "alias")):
             for rv in ("c3", "c2"):
                 scen.append((state, [(k, rv)], "A"))
     # interleavings on siblings / relatives
@@ -794,7 +821,7 @@ def plan(ctx):
                 for r1, r2 in ((None, "c1"), ("c1", None), (None, None)):
                     pairs.append((state, [(k1, r1), (k2, r2)], "A"))
     rnd.shuffle(pairs)
-    scen += pairs[: (100 if not thorough else 2000)]
+    scen += pairs[: (60 if not thorough else 2000)]
     return scen
 
 
@@ -846,6 +873,7 @@ def run(ctx: core.Ctx):
     try:
         text, facts, entries = c04_summary.generate(core.REPO)
         ctx.gen("C04Facts", text, facts)
+        SHARES_HINTS[0] = any(f.get("copy_shares_hint_objects") for f in facts)
     except Exception as ex:
         ctx.broken("T1:c04_summary", f"{type(ex).__name__}: {ex}")
         t1_ok = False
@@ -854,7 +882,9 @@ def run(ctx: core.Ctx):
         ctx.prove([ctx.build + "/gen/C04Facts.v", core.COQ + "/props/C04.v"], dep_theories=THEORIES)
     else:
         # the case files need Gen.C04Facts: fall back to the facts of the pinned source so that the search can run
-        ctx.gen("C04Facts", open(core.VERIF + "/translate/c04_facts_pinned.v").read())
+        pinned = open(core.VERIF + "/translate/c04_facts_pinned.v").read()
+        ctx.gen("C04Facts", pinned)
+        SHARES_HINTS[0] = "copy_shares_hints : bool := true" in pinned
         ctx.coqc(ctx.build + "/gen/C04Facts.v")
     # ---- T3: implementation
     scen = plan(ctx)
@@ -982,7 +1012,7 @@ def run(ctx: core.Ctx):
                 "C = before/after on the same objects; every case carries white-box snapshots of ALL live DataFrames "
                 "(after the state is built, after the follow-up, after each observation round); non-trivial = the receiver is "
                 "not a freshly created DataFrame (so the wrapper may pass the receiver itself); distinct by enumeration",
-        "states": sorted(hist_state), "alphabet_size": len([k for k, a in ALPHABET.items() if a["group"] not in ("builder", "observe")]),
+        "corpus_scenarios_run_first": len(corpus()), "states": sorted(hist_state), "alphabet_size": len([k for k, a in ALPHABET.items() if a["group"] not in ("builder", "observe")]),
         "histogram_state": hist_state, "histogram_method": hist_method, "histogram_group": hist_group,
         "histogram_protocol": hist_proto, "skipped": len(skipped), "follow_up_raised": n_raise,
         "white_box_agree": n_agree, "follow_up_in_theorem_domain": n_dom, "scenarios_where_existing_changed": n_changed,
